@@ -25,7 +25,8 @@ ASSUMPTIONS = ['tolerance 1e-7 x natural scale of the output (price scale, or 10
                'rsi / atr / adx family = Wilder smoothing seeded with the simple average (sum) of the first period values',
                'positions before the first full window are not judged (conventions differ)']
 MIN_OBS = {'triples': 3000, 'reference_comparisons': 3000, 'recurrence_checks': 600, 'decayed_value_checks': 300,
-           'ma_dispatch_checks': 300, 'invariant_checks': 3000, 'homogeneity_checks': 600}
+           'ma_dispatch_checks': 300, 'invariant_checks': 3000, 'homogeneity_checks': 600,
+           'stage_parameter_checks': 300, 'stoch_with_different_stage_types': 50}
 SHARD_TIMEOUT = 2400
 JOB_TIMEOUT = 900
 
@@ -184,6 +185,11 @@ def run_job(job):
                 J.same('bollinger:middle', bb.middleband, mid, xs)
                 J.same('bollinger:upper', bb.upperband, mid + 2 * sd, xs, tol=1e-6)
                 J.same('bollinger:lower', bb.lowerband, mid - 2 * sd, xs, tol=1e-6)
+                du, dd = rng.choice([0.5, 1.0, 1.5, 2.5, 3.0]), rng.choice([0.25, 1.0, 2.0, 3.5])
+                bb2 = ta.bollinger_bands(X, p, du, dd, source_type=st, sequential=True)
+                J.same('bollinger:upper:devup', bb2.upperband, mid + du * sd, xs, tol=1e-6, counter='stage_parameter_checks')
+                J.same('bollinger:lower:devdn', bb2.lowerband, mid - dd * sd, xs, tol=1e-6, counter='stage_parameter_checks')
+                J.same('bollinger:middle:dev', bb2.middleband, mid, xs, counter='stage_parameter_checks')
                 J.ge('bollinger:upper>=middle', bb.upperband, bb.middleband, 0.0)
                 J.ge('bollinger:middle>=lower', bb.middleband, bb.lowerband, 0.0)
                 dc = ta.donchian(X, p, sequential=True)
@@ -209,6 +215,25 @@ def run_job(job):
                     k_ = r_sma(rawk, 3)
                     J.same('stoch:k', so.k, k_, 100.0)
                     J.same('stoch:d', so.d, r_sma(k_, 3), 100.0)
+                # every smoothing stage has its own period and its own average type
+                sk, sd = rng.randint(2, 6), rng.randint(2, 6)
+                mk, md = rng.choice([(0, 2), (2, 0), (0, 0), (2, 2)])
+                R = {0: r_sma, 2: r_wma}
+                if okm[p - 1:].all():
+                    so2 = ta.stoch(X, p, sk, mk, sd, md, sequential=True)
+                    k2 = R[mk](rawk, sk)
+                    J.same(f'stoch:k:stages', so2.k, k2, 100.0, counter='stage_parameter_checks')
+                    J.same(f'stoch:d:stages', so2.d, R[md](k2, sd), 100.0, counter='stage_parameter_checks')
+                    if mk != md:
+                        J.c('stoch_with_different_stage_types')
+                    sf2 = ta.stochf(X, p, sd, md, sequential=True)
+                    J.same('stochf:k:stages', sf2.k, rawk, 100.0, counter='stage_parameter_checks')
+                    J.same('stochf:d:stages', sf2.d, R[md](rawk, sd), 100.0, counter='stage_parameter_checks')
+                    # non-sequential results are the last elements of the series
+                    so1 = ta.stoch(X, p, sk, mk, sd, md, sequential=False)
+                    for nm_, a1, a2 in (('k', so1.k, so2.k[-1]), ('d', so1.d, so2.d[-1])):
+                        if not (abs(a1 - a2) <= 1e-7 or (math.isnan(a1) and math.isnan(a2))):
+                            J.bad(f'stoch:{nm_}:single', f'stoch non-sequential {nm_} {a1!r} != last of series {a2!r}')
                 J.rng_check('stochf:k range', sf.k, 0.0, 100.0, 1e-9)
                 J.rng_check('stoch:k range', so.k, 0.0, 100.0, 1e-7)
                 J.rng_check('stoch:d range', so.d, 0.0, 100.0, 1e-7)
@@ -312,6 +337,19 @@ def run_job(job):
                 if lo_s < n2 - 5:
                     # the weighted (adjusted) form converges to the Wilder recursion
                     step('smma', np.asarray(sm, dtype=float), xl, aw, lo_s, xls)
+                # macd with its three periods drawn independently
+                fp = rng.randint(2, 20)
+                sp = fp + rng.randint(1, 30)
+                gp = rng.randint(2, 15)
+                mc2 = ta.macd(Xl, fp, sp, gp, source_type=st, sequential=True)
+                fr = r_ema_from(xl, 2 / (fp + 1), fp - 1, sum(xl[:fp]) / fp)
+                sr = r_ema_from(xl, 2 / (sp + 1), sp - 1, sum(xl[:sp]) / sp)
+                lo_m = 3 * decayed(2 / (sp + 1), sp)
+                if lo_m < n2 - 5:
+                    J.same('macd:line:periods', mc2.macd, fr - sr, xls, lo=lo_m, counter='stage_parameter_checks', tol=1e-6)
+                J.same('macd:hist=macd-signal:periods', mc2.hist, np.asarray(mc2.macd) - np.asarray(mc2.signal), xls, tol=1e-9,
+                       counter='stage_parameter_checks')
+                step('macd:signal:periods', mc2.signal, np.asarray(mc2.macd, dtype=float), 2 / (gp + 1), 1, xls)
                 mc = ta.macd(Xl, 12, 26, 9, source_type=st, sequential=True)
                 J.same('macd:hist=macd-signal', mc.hist, np.asarray(mc.macd) - np.asarray(mc.signal), xls, tol=1e-9)
                 step('macd:signal', mc.signal, np.asarray(mc.macd, dtype=float), 2 / 10, 1, xls)
@@ -397,6 +435,12 @@ def run_job(job):
                 atr_ref = r_wilder(trl, p, p - 1)
                 J.same('keltner:upper', kc.upperband, np.asarray(e, dtype=float) + 2 * atr_ref, max(xls, pl))
                 J.same('keltner:lower', kc.lowerband, np.asarray(e, dtype=float) - 2 * atr_ref, max(xls, pl))
+                km = rng.choice([0.5, 1.0, 1.5, 3.0])
+                kc2 = ta.keltner(Xl, p, km, 1, source_type=st, sequential=True)
+                J.same('keltner:upper:multiplier', kc2.upperband, np.asarray(e, dtype=float) + km * atr_ref, max(xls, pl),
+                       counter='stage_parameter_checks')
+                J.same('keltner:lower:multiplier', kc2.lowerband, np.asarray(e, dtype=float) - km * atr_ref, max(xls, pl),
+                       counter='stage_parameter_checks')
                 J.ge('keltner:upper>=middle', kc.upperband, kc.middleband, 0.0)
                 J.ge('keltner:middle>=lower', kc.middleband, kc.lowerband, 0.0)
             elif job['group'] == 'ma':
@@ -483,7 +527,7 @@ def run_job(job):
 def make_jobs(tier, seed):
     rng = random.Random(150000 + seed)
     jobs = []
-    kinds = ['walk', 'trend', 'constant', 'monotone', 'alternating', 'huge', 'tiny', 'tiny', 'flat', 'spikes', 'gappy', 'lattice', 'zerovol', 'outside', 'volspike']
+    kinds = ['walk', 'trend', 'constant', 'monotone', 'alternating', 'huge', 'tiny', 'tiny', 'flat', 'spikes', 'gappy', 'lattice', 'zerovol', 'outside', 'volspike', 'ties']
     plan = {'window': (96, 24), 'recursive': (32, 6), 'ma': (24, 16), 'homogeneity': (24, 16)} if tier == 'quick' else \
         {'window': (3600, 60), 'recursive': (1440, 12), 'ma': (900, 40), 'homogeneity': (900, 40)}
     for group, (njobs, n) in plan.items():
